@@ -52,6 +52,12 @@ def step_prop(funcs_extra=(), owner=None):
 
 
 PROPS = {
+    'C06': {'level': 'other', 'rule': 'one obligation per (function, clause of its specification); the functions are the MIR bodies of the current tree; non-trivial = obligation whose function body was symbolically executed along at least one path',
+            'explanation': 'E2: symbolic execution of the nightly MIR of the current tree (callees uninterpreted, Vec<ResourceId> as z3 sequences), z3 decides every comparison, cvc5 re-decides the same SMT-LIB text',
+            'functions': [], 'bounds': {'loop unrolling': 3, 'tuple arities': '1..26', 'derive samples': 'mir/derive_samples (7 structs, nesting 3)'},
+            'assumptions': ['callees that are type parameters or third-party code are uninterpreted: the claim is parametric in them', 'atomic_refcell releases a borrow when its guard is dropped', 'rustc nightly MIR (debug-assertions off) is the semantics of the source'],
+            'outside': ['run-time borrow state of a populated World (hashbrown)', 'user-written SystemData impls'],
+            'parts': [{'engine': 'mir'}]},
     'C01': step_prop(),
     'C02': step_prop(),
     'C10': step_prop(),
